@@ -26,11 +26,65 @@ ASSIGNS(OBJ_UPTO(iv, 16); nblocks != 0: OBJ_UPTO(out, 16 * nblocks); G_cbcd_call
 ENSURES(G_cbcd_calls == OLD(G_cbcd_calls) + 1 && G_cbcd_nblocks == nblocks && G_cbcd_in == (size_t)in && G_cbcd_out == (size_t)out)
 ;
 
+#ifdef CONTRACT_CBCE_RECORDING
+/* recording variant: the plaintext stream given to CBC encryption (observed at ghost position G_ek), which iv / key object
+   chains the calls, and where the output goes */
+#ifdef VERIF_CBMC
+size_t G_ek; size_t G_cbce_fed; uint8_t G_cbce_byte; size_t G_cbce_iv; size_t G_cbce_key; size_t G_cbce_out0; size_t G_cbce_out_next; int G_cbce_chain_ok;
+size_t G_cbce_last_in;
+const uint8_t G_zero_byte = 0;
+#endif
+void sm4_cbc_encrypt_blocks(const SM4_KEY *key, uint8_t iv[16], const uint8_t *in, size_t nblocks, uint8_t *out)
+REQUIRES(RD_OK(key, sizeof(*key)) && RW_OK(iv, 16) && nblocks >= 1 && nblocks <= 4096 && RD_OK(in, 16 * nblocks) && WR_OK(out, 16 * nblocks))
+ASSIGNS(OBJ_UPTO(iv, 16), OBJ_WHOLE(out), G_cbce_calls, G_cbce_fed, G_cbce_byte, G_cbce_iv, G_cbce_key, G_cbce_out0, G_cbce_out_next, G_cbce_chain_ok, G_cbce_last_in)
+ENSURES(G_cbce_calls == OLD(G_cbce_calls) + 1 && G_cbce_fed == OLD(G_cbce_fed) + 16 * nblocks && G_cbce_last_in == (size_t)in)
+ENSURES((G_ek >= OLD(G_cbce_fed) && G_ek - OLD(G_cbce_fed) < 16 * nblocks)
+	? G_cbce_byte == OLD(*((G_ek >= G_cbce_fed && G_ek - G_cbce_fed < 16 * nblocks) ? (in + (G_ek - G_cbce_fed)) : &G_zero_byte)) : G_cbce_byte == OLD(G_cbce_byte))
+ENSURES(G_cbce_out0 == (OLD(G_cbce_calls) == 0 ? (size_t)out : OLD(G_cbce_out0)))
+ENSURES(G_cbce_chain_ok == ((OLD(G_cbce_calls) == 0 || (OLD(G_cbce_chain_ok) == 1 && (size_t)out == OLD(G_cbce_out_next) && (size_t)iv == OLD(G_cbce_iv) && (size_t)key == OLD(G_cbce_key))) ? 1 : 0))
+ENSURES(G_cbce_out_next == (size_t)out + 16 * nblocks && G_cbce_iv == (size_t)iv && G_cbce_key == (size_t)key)
+;
+
+/* C11: protect.  MAC-then-encrypt of RFC 5246 6.2.3.2 / GB/T 38636: MAC over seq_num || header || data, then
+   data || MAC || padding (padding_len + 1 bytes, each equal to padding_len, total a multiple of 16) CBC-encrypted under a
+   freshly drawn 16-byte IV that is sent first. */
+int tls_cbc_encrypt(const SM3_HMAC_CTX *inited_hmac_ctx, const SM4_KEY *enc_key, const uint8_t seq_num[8], const uint8_t header[5],
+	const uint8_t *in, size_t inlen, uint8_t *out, size_t *outlen)
+REQUIRES(inited_hmac_ctx == NULL || RD_OK(inited_hmac_ctx, sizeof(*inited_hmac_ctx)))
+REQUIRES(enc_key == NULL || RD_OK(enc_key, sizeof(*enc_key)))
+REQUIRES((seq_num == NULL || RD_OK(seq_num, 8)) && (header == NULL || RD_OK(header, 5)) && (outlen == NULL || WR_OK(outlen, sizeof(size_t))))
+REQUIRES(inlen <= 70000 && (in == NULL || inlen == 0 || RD_OK(in, inlen)))
+/* capacity: iv + data rounded down to blocks + three blocks */
+REQUIRES(out == NULL || WR_OK(out, 16 + (inlen - inlen % 16) + 48))
+REQUIRES(inited_hmac_ctx == NULL || (HM_FED(inited_hmac_ctx) == 0 && HM_TSEEN(inited_hmac_ctx) == 0))
+REQUIRES(G_cbce_calls == 0 && G_cbce_fed == 0 && G_cbce_chain_ok == 1 && G_ek < 70000 && G_tk < 70000 && SEPARATE(out, in) && SEPARATE(out, outlen))
+ASSIGNS(out != NULL: OBJ_WHOLE(out); outlen != NULL: *outlen; G_hfin_fed, G_hfin_tbyte, G_hfin_tseen, G_hfin_calls, G_hfin_mac,
+	G_rb_fail, G_rb_calls, G_rb_buf, G_rb_len,
+	G_cbce_calls, G_cbce_fed, G_cbce_byte, G_cbce_iv, G_cbce_key, G_cbce_out0, G_cbce_out_next, G_cbce_chain_ok, G_cbce_last_in)
+ENSURES(RET == 1 || RET == -1)
+ENSURES(RET == 1 IMPLIES (inited_hmac_ctx != NULL && enc_key != NULL && seq_num != NULL && header != NULL && out != NULL && outlen != NULL && (in != NULL || inlen == 0)
+	&& inlen <= 16384 && ((((size_t)header[3]) << 8) | header[4]) == inlen))
+/* the MAC covers seq_num || header || data */
+ENSURES(RET == 1 IMPLIES (G_hfin_calls == OLD(G_hfin_calls) + 1 && G_hfin_fed == 13 + inlen))
+ENSURES((RET == 1 && G_tk < 8) IMPLIES (G_hfin_tseen == 1 && G_hfin_tbyte == seq_num[G_tk]))
+ENSURES((RET == 1 && G_tk >= 8 && G_tk < 13) IMPLIES (G_hfin_tseen == 1 && G_hfin_tbyte == header[G_tk - 8]))
+ENSURES((RET == 1 && G_tk >= 13 && G_tk < 13 + inlen) IMPLIES (G_hfin_tseen == 1 && G_hfin_tbyte == in[G_tk - 13]))
+/* a fresh IV: one successful 16-byte draw, and that object is the chaining value of every CBC call */
+ENSURES(RET == 1 IMPLIES (G_rb_calls == OLD(G_rb_calls) + 1 && G_rb_len == 16 && G_rb_fail == OLD(G_rb_fail) && G_cbce_iv == G_rb_buf && G_cbce_key == (size_t)enc_key))
+ENSURES((G_rb_calls != OLD(G_rb_calls) && G_rb_fail != OLD(G_rb_fail)) IMPLIES (RET == -1 && G_cbce_calls == 0))
+/* encrypted stream = data || MAC(32) || padding, to out + 16 onwards, in one chain */
+ENSURES(RET == 1 IMPLIES (G_cbce_fed == (inlen - inlen % 16) + 48 && *outlen == 16 + G_cbce_fed && G_cbce_out0 == (size_t)(out + 16) && G_cbce_chain_ok == 1
+	&& G_hfin_mac == G_cbce_last_in + inlen % 16))
+ENSURES((RET == 1 && G_ek < inlen) IMPLIES G_cbce_byte == in[G_ek])
+ENSURES((RET == 1 && G_ek >= inlen + 32 && G_ek < G_cbce_fed) IMPLIES G_cbce_byte == (uint8_t)(15 - inlen % 16))
+;
+#else
 void sm4_cbc_encrypt_blocks(const SM4_KEY *key, uint8_t iv[16], const uint8_t *in, size_t nblocks, uint8_t *out)
 REQUIRES(RD_OK(key, sizeof(*key)) && RW_OK(iv, 16) && nblocks <= 4096 && (nblocks == 0 || (RD_OK(in, 16 * nblocks) && WR_OK(out, 16 * nblocks))))
 ASSIGNS(OBJ_UPTO(iv, 16); nblocks != 0: OBJ_UPTO(out, 16 * nblocks); G_cbce_calls)
 ENSURES(G_cbce_calls == OLD(G_cbce_calls) + 1)
 ;
+#endif
 
 /* C11: unprotect.  RET == 1 only if: the whole padding (padding_len bytes + the length byte) lies behind a 32-byte MAC inside
    the decrypted body; every padding byte equals padding_len; the MAC was recomputed over
